@@ -302,7 +302,9 @@ pub fn gen_case2(prop: &str, tier: Tier, _seed: u64, idx: u64, r: &mut Rng) -> O
                     });
                 }
                 if r.chance(1, 3) {
-                    h.cfg.path = 4;
+                    // creation time / language through their own setters, now and then after
+                    // decoy calls of the same setters
+                    h.cfg.path = if r.chance(1, 3) { 12 } else { 4 };
                 }
                 if r.chance(1, 40) {
                     h.cfg.title = Some("t".repeat(100_000));
